@@ -129,17 +129,22 @@ def build(case):
     b.lrns = [_learner(kind, r) for r in case["lrns"]]
     b.vals = [_evaluator(kind, r) for r in case["vals"]]
     ne, nl, nv = len(b.envs), len(b.lrns), len(b.vals)
+
+    def first_same(objs, i):
+        # the same object may stand at two positions (e.g. a function used as evaluator twice): coba keys on the object
+        return next(j for j in range(len(objs)) if objs[j] is objs[i])
     if case["mode"] == "product":
         pe = [i % ne for i in case["pe"]]
         pl = [i % nl for i in case["pl"]]
         pv = [i % nv for i in case["pv"]]
-        b.triples = [(e, l, v) for e in pe for l in pl for v in pv]
+        b.triples = [(first_same(b.envs, e), first_same(b.lrns, l), first_same(b.vals, v)) for e in pe for l in pl for v in pv]
         if case.get("single_eval") and len(pv) == 1:
             b.exp = Experiment([b.envs[i] for i in pe], [b.lrns[i] for i in pl], b.vals[pv[0]])
         else:
             b.exp = Experiment([b.envs[i] for i in pe], [b.lrns[i] for i in pl], [b.vals[i] for i in pv])
     else:
-        b.triples = [(t[0] % ne, t[1] % nl, (t[2] % nv) if t[2] >= 0 else -1) for t in case["triples"]]
+        b.triples = [(first_same(b.envs, t[0] % ne), first_same(b.lrns, t[1] % nl), first_same(b.vals, t[2] % nv) if t[2] >= 0 else -1)
+                     for t in case["triples"]]
         tl = [(b.envs[e], b.lrns[l], b.vals[v]) if v >= 0 else (b.envs[e], b.lrns[l]) for e, l, v in b.triples]
         b.exp = Experiment(tl)
     return b
